@@ -4,6 +4,11 @@ import GoUefi.Model.Authenticode
 import GoUefi.Model.MultiFault
 import GoUefi.Spec.Authenticode
 namespace GoUefi.Drv
+
+/-- strict verdict; when it is negative, the tolerant one too -/
+def specStr (b : Bytes) (cert : GoUefi.Cert) : String :=
+  if Spec.authenticodeVerify Exec.crypto b cert then " spec=true"
+  else s!" spec=false len={Spec.authenticodeVerifyLenient Exec.crypto b cert}"
 open GoUefi
 
 /-- facts as `lfanew,kind,soh,ddva,ddsize,off:size+off:size…` -/
@@ -120,8 +125,8 @@ def handlePe (op : String) (args : List String) : Option String :=
       | .ok p =>
         let r := p.verify Exec.crypto certsOk cert
         "model=" ++ r.cls ++ (match r with | .ok v => " " ++ toString v | _ => "") ++
-          s!" spec={Spec.authenticodeVerify Exec.crypto b cert}"
-      | o => "model=parse-" ++ o.cls ++ s!" spec={Spec.authenticodeVerify Exec.crypto b cert}")
+          specStr b cert
+      | o => "model=parse-" ++ o.cls ++ specStr b cert)
   | "spc", [d] => some (hex (Impl.spcIndirectData (unhex d)))
   | _, _ => none
 
